@@ -1,6 +1,6 @@
 (* C01/Props.v -- pinned property theorems (statements only, closed by `exact`). *)
 From NV.Common Require Import Base.
-From NV.C01 Require Import Model LogList VoteSim LogMatch Commit Inst.
+From NV.C01 Require Import Model LogList VoteSim LogMatch Commit Safety Inst.
 From NV.gen Require Import Gen_C01.
 Open Scope N_scope.
 
@@ -50,8 +50,8 @@ Qed.
    pool), or v is the leader of term t; QA t m: a quorum of distinct nodes has acknowledged position m of
    ledger t, an entry created in term t.  Then, in every reachable state, every node that is leader of a
    later term holds the first m entries of ledger t.  (This is what makes the leader's commit rule safe;
-   the statement about commit_index itself -- state-machine safety -- is C01_state_machine_safety below /
-   or listed as not yet proved in DESIGN.md.) *)
+   the statements about commit_index itself are C01_state_machine_safety and C01_leader_holds_committed
+   below.) *)
 Theorem C01_leader_completeness : forall n ab mp ops,
   let cfg := cluster n ab mp in
   let s := grun cfg gen_rules ops in
@@ -65,6 +65,49 @@ Proof.
   - intros p ln len. apply gen_ack_verified.
 Qed.
 
+(* STATE-MACHINE SAFETY ("once any node reports a log position as committed, no node ever reports a
+   different entry committed at that position").  For every cluster size, every schedule ops1 and every
+   continuation ops2 of it (timeouts, pre-votes, broadcasts, heartbeats, proposals, deliveries in any order
+   with duplication and loss, refusal oracles, crash/restarts): if node i's commit index is at least k after
+   ops1 and node j's commit index is at least k after ops1 ++ ops2, then the two logs are identical on
+   positions 1..k (and those positions exist).  ops2 = [] compares two nodes at the same moment; i = j says
+   a committed entry is never lost or replaced. *)
+Theorem C01_state_machine_safety : forall n ab mp ops1 ops2 i j k,
+  let cfg := cluster n ab mp in
+  let s1 := grun cfg gen_rules ops1 in
+  let s2 := grun cfg gen_rules (ops1 ++ ops2) in
+  i < n -> j < n ->
+  (k <= N.to_nat (commit (nth_node (nodes s1) i)))%nat -> (k <= N.to_nat (commit (nth_node (nodes s2) j)))%nat ->
+  firstn k (log (nth_node (nodes s1) i)) = firstn k (log (nth_node (nodes s2) j)) /\
+  (k <= length (log (nth_node (nodes s1) i)))%nat.
+Proof.
+  intros n ab mp ops1 ops2 i j k cfg s1 s2 Hi Hj. apply (state_machine_safety cfg gen_rules); auto.
+  - cbn [cfg cluster n_nodes quorum]. pose proof (gen_quorum_majority n). lia.
+  - cbn [cfg cluster n_nodes quorum]. pose proof (gen_quorum_within n). lia.
+  - intros p ln len. apply gen_ack_verified.
+  - intros lc c p ln len. apply gen_commit_verified.
+Qed.
+
+(* ... "and every later leader's log contains that entry": if node i's commit index is at least k after ops1,
+   every node that is leader after ops1 ++ ops2 in a term not below node i's term (at the moment it reported)
+   holds the same k entries. *)
+Theorem C01_leader_holds_committed : forall n ab mp ops1 ops2 i c k,
+  let cfg := cluster n ab mp in
+  let s1 := grun cfg gen_rules ops1 in
+  let s2 := grun cfg gen_rules (ops1 ++ ops2) in
+  i < n -> c < n ->
+  (k <= N.to_nat (commit (nth_node (nodes s1) i)))%nat ->
+  rl (nth_node (nodes s2) c) = Leader -> term (nth_node (nodes s1) i) <= term (nth_node (nodes s2) c) ->
+  firstn k (log (nth_node (nodes s2) c)) = firstn k (log (nth_node (nodes s1) i)) /\
+  (k <= length (log (nth_node (nodes s2) c)))%nat.
+Proof.
+  intros n ab mp ops1 ops2 i c k cfg s1 s2 Hi Hc. apply (leader_holds_committed cfg gen_rules); auto.
+  - cbn [cfg cluster n_nodes quorum]. pose proof (gen_quorum_majority n). lia.
+  - cbn [cfg cluster n_nodes quorum]. pose proof (gen_quorum_within n). lia.
+  - intros p ln len. apply gen_ack_verified.
+  - intros lc c0 p ln len. apply gen_commit_verified.
+Qed.
+
 (* non-vacuity: a concrete 3-node schedule elects a leader and replicates an entry *)
 Example C01_nonvacuous :
   let ops := [GElect 0; GDeliver 0 true; GDeliver 2 true; GPropose 0 7 true; GHeartbeat 0; GDeliver 3 true] in
@@ -73,7 +116,18 @@ Example C01_nonvacuous :
   term_at (log (nth_node (nodes s) 0)) 1 = Some 1 /\ term_at (log (nth_node (nodes s) 1)) 1 = Some 1.
 Proof. vm_compute. repeat split; reflexivity. Qed.
 
+(* non-vacuity of the commit theorems: in a concrete schedule the leader and a follower both report position 1
+   committed (so the hypotheses k <= commit are met with k = 1 on two different nodes) *)
+Example C01_commit_nonvacuous :
+  let ops := [GElect 0; GDeliver 0 true; GDeliver 2 true; GPropose 0 7 true; GHeartbeat 0; GDeliver 3 true;
+              GDeliver 5 true; GHeartbeat 0; GDeliver 6 true] in
+  let s := grun (cluster 3 false 10) gen_rules ops in
+  commit (nth_node (nodes s) 0) = 1 /\ commit (nth_node (nodes s) 1) = 1 /\ rl (nth_node (nodes s) 0) = Leader.
+Proof. vm_compute. repeat split; reflexivity. Qed.
+
 Print Assumptions C01_election_safety.
 Print Assumptions C01_log_matching.
 Print Assumptions C01_logs_well_formed.
 Print Assumptions C01_leader_completeness.
+Print Assumptions C01_state_machine_safety.
+Print Assumptions C01_leader_holds_committed.
